@@ -63,7 +63,10 @@ WALKERS = [
     walker('z08_wide', 'm'),
     walker('z09_headless', 'm'),
     walker('z10_roots_r', 'm'), walker('z11_roots_n', ''), walker('z11_roots_n', 'mr'), walker('z12_roots_s', 'm'),
+    walker('z03_orthoroot', 'mp1'), walker('z06_plans', 'p2'), walker('z08_wide', 'bp3'),
 ]
+PAYLOAD_WALKERS = [w['name'] for w in WALKERS if 'HV_PAYLOAD' in ' '.join(w['defines'])]
+MANUAL_WALKERS = [w['name'] for w in WALKERS if 'HV_MANUAL' in w['defines'] and 'HV_RNG_BUILTIN' not in w['defines']]
 for w in WALKERS:
     UNITS[w['name']] = w
 WALKER_NAMES = [w['name'] for w in WALKERS]
@@ -103,6 +106,41 @@ PROPS = {
         claim='Guard rounds are segmented from the trace (scripted guards cancel and/or substitute requests of any kind): lifecycle callbacks only after the last guard, exit guards before entry guards, every guard sees the pending list that was requested for its round, every state that is exited/entered/re-entered had its guard invoked in the last approved round, an all-vetoed step leaves active and resumable configuration unchanged (apart from schedule marks), the final configuration equals the model applied to approved rounds only, and there are at most SUBSTITUTION_LIMIT rounds (limits 2 and 4).',
         note='Round boundaries are detected from control.requests().count() inside guards. Trusted: the reference model for the final configuration.',
         technique='stateful property-based testing (rapidcheck) with scripted guards; trace invariants + model differential',
+    ),
+    'C05': dict(
+        level='exploration', bins=WALKER_NAMES,
+        quick=walk_jobs(WALKER_NAMES, 6000, 40), thorough=walk_jobs(WALKER_NAMES, 20000, 60),
+        claim='For every update()/react<handled event>()/react<unhandled event>()/query() the recorded callback sequence (state, method, injected-or-own) is compared for equality with the sequence a 40-line model derives from the active configuration, the declaration order, the configured reaction order (TopDown and BottomUp binaries) and the scripted consumption point; query() must leave the configuration untouched and invoke nothing but query handlers.',
+        note='Trusted: the order model (head before sub-states, orthogonal sub-states in declaration order, injected before own on the way down, own before injected on the way up, a phase stops at the first state boundary after consumption).',
+        technique='model-based property testing (rapidcheck): exact sequence comparison with a reference order model',
+    ),
+    'C08': dict(
+        level='exploration', bins=WALKER_NAMES,
+        quick=walk_jobs(WALKER_NAMES, 6000, 40), thorough=walk_jobs(WALKER_NAMES, 20000, 60),
+        claim='Two instances of one machine are driven by independent generated prefixes (including never activated / exited under manual activation), then save(A) -> load(B): isActive/isResumable of B equal A\'s for every state, save(B) is byte-identical, A is untouched (no callback, same configuration), exit is delivered exactly once to every state that stops being active and enter exactly once to every state that becomes active, no guard is consulted, the buffer sits between canaries under ASan and its bit capacity equals the number derived from the structure.',
+        note='States that stay active across the load are only constrained by C03 (the library re-enters them).',
+        technique='round-trip property testing (rapidcheck) over pairs of generated instance states',
+    ),
+    'C09': dict(
+        level='exploration', bins=MANUAL_WALKERS + ['walk_z03_orthoroot_a', 'walk_z11_roots_n_a'],
+        quick=walk_jobs(MANUAL_WALKERS + ['walk_z03_orthoroot_a', 'walk_z11_roots_n_a'], 6000, 40), thorough=walk_jobs(MANUAL_WALKERS + ['walk_z03_orthoroot_a', 'walk_z11_roots_n_a'], 20000, 60),
+        claim='After every processing step previousTransitions() is compared with the concatenation of the approved guard rounds\' pending lists (rounds segmented from the trace), lastTransitionTo() must be null or point into that array and, after a single approved request, at entry 0 for every state on the destination path the request activated; a replica instance replays previousTransitions() after every step and must reach the same active configuration without any guard being consulted (and the same resumable marks for single-round steps without schedule).',
+        note='Known findings F15 and F30 are tolerated only in their exact situation. The replica receives the same select/utility/rank answers and one constant generator value per step.',
+        technique='differential property testing (rapidcheck): authority vs replica by replay, history vs trace',
+    ),
+    'C13': dict(
+        level='exploration', bins=WALKER_NAMES,
+        quick=walk_jobs(WALKER_NAMES, 6000, 40), thorough=walk_jobs(WALKER_NAMES, 20000, 60),
+        claim='In every step with exactly one guard round evaluating exactly one pending transition request the guards tabulate isPendingEnter/Exit/Change for all state ids at the start of the round; the table is compared with the net activations/deactivations the step actually performed (states re-entered in place are not judged). activeSubState()/isActive() consistency is part of the C01 invariant and isResumable() drives the model\'s resume, so a wrong answer shows as a C02 disagreement in the same run.',
+        note='Between steps the three queries are checked to be false for every id after each API call.',
+        technique='property-based testing (rapidcheck): query tables inside guards vs observed outcome',
+    ),
+    'C14': dict(
+        level='exploration', bins=PAYLOAD_WALKERS,
+        quick=walk_jobs(PAYLOAD_WALKERS, 8000, 40), thorough=walk_jobs(PAYLOAD_WALKERS, 40000, 60),
+        claim='Every request (external, from callbacks, with or without payload; int, 32-byte struct and alignas(16) struct payloads) carries a unique tag; guards must see exactly the issued tags on the pending transitions of their round, every lifecycle callback must see currentTransitions() equal to the approved transitions with their tags, previousTransitions() and lastTransitionTo() must return the same tags afterwards, payload-less requests must expose no payload, payload storage must be aligned.',
+        note='The 32-byte and over-aligned payloads carry redundancy so that a partially copied payload is detected.',
+        technique='property-based testing (rapidcheck): tagged payload tracking through guards, lifecycle callbacks and history',
     ),
     'C11': dict(
         level='exploration', bins=WALKER_NAMES, hang_is_violation=True,
